@@ -334,7 +334,7 @@ def m_bad_function_type(b, rng):
 
 def m_bad_element_key(b, rng):
     z = rng.choice(list(b['elements']))
-    b['elements']['H' if rng.random() < 0.5 else 'x1'] = b['elements'].pop(z)
+    b['elements'][rng.choice(['H', 'x1', z + 'a', z + '.5', z + ':ghost', ' ' + z, z + ' '])] = b['elements'].pop(z)       # element keys are digit strings, nothing else
     return True
 
 
